@@ -97,7 +97,18 @@ pub fn run(args: &[String]) {
 
     // placement alphabets per key
     let p = |idx: &[usize]| -> Vec<Option<&'static str>> { idx.iter().map(|&i| PLACEMENTS[i]).collect() };
+    // (only the placements of types reachable from a root make a case, see `seen_locs` below)
     let keys: Vec<(&str, Vec<Option<&'static str>>)> = if thorough {
+        vec![
+            ("A", p(&[0, 1, 2, 3, 4, 5, 6, 7])),
+            ("B", p(&[0, 1, 2, 3, 4, 5, 6, 7])),
+            ("C", p(&[0, 1, 2, 3, 4, 5, 6, 7])),
+            ("B2", p(&[0, 1, 2, 3, 4, 6])),
+            ("G", p(&[0, 3, 2, 4])),
+            ("K", p(&[0, 2, 1])),
+            ("Y", p(&[0, 2, 4])),
+        ]
+    } else {
         vec![
             ("A", p(&[0, 1, 2, 3, 4, 5, 6, 7])),
             ("B", p(&[0, 1, 2, 3, 4, 5, 6, 7])),
@@ -107,19 +118,9 @@ pub fn run(args: &[String]) {
             ("K", p(&[0, 2])),
             ("Y", p(&[0, 2])),
         ]
-    } else {
-        vec![
-            ("A", p(&[0, 1, 2, 3, 4, 5, 6, 7])),
-            ("B", p(&[0, 1, 2, 3, 4, 5, 6, 7])),
-            ("C", p(&[0, 2, 3])),
-            ("B2", p(&[0, 2, 6])),
-            ("G", p(&[0, 3])),
-            ("K", p(&[0])),
-            ("Y", p(&[0, 2])),
-        ]
     };
-    let bases: Vec<&BaseCfg> = if thorough { BASES.iter().collect() } else { BASES[..3].iter().collect() };
-    let pre_kinds: &[&str] = if thorough { &["none", "unrelated", "at-targets"] } else { &["unrelated"] };
+    let bases: Vec<&BaseCfg> = if thorough { BASES.iter().collect() } else { [0usize, 1, 2, 4, 6].iter().map(|&i| &BASES[i]).collect() };
+    let pre_kinds: &[&str] = if thorough { &["none", "unrelated", "at-targets"] } else { &["unrelated", "at-targets"] };
 
     // all assignments
     let mut assigns: Vec<Vec<Option<&'static str>>> = vec![vec![]];
@@ -139,35 +140,39 @@ pub fn run(args: &[String]) {
 
     let mut case_no = 0usize;
     for (ri, root) in roots.iter().enumerate() {
-        for assign in &assigns {
-            case_no += 1;
-            if !slice.mine(case_no) {
+        // An export only ever looks at the placements of the types reachable from the root, so two
+        // assignments that agree on those are the same case: each (root, locations) is run once.
+        let mut seen_locs: BTreeSet<String> = BTreeSet::new();
+        // reachable types, by name: a matter of the declarations, not of the placements
+        let mut table = Table { by_name: BTreeMap::new() };
+        for (k, ti) in &others {
+            table.by_name.insert((ti.ident)(), (ti.clone(), k));
+        }
+        table.by_name.insert("A".into(), (root.clone(), "A"));
+        clear_places();
+        let (closure, unknown) = match closure_by_name(root, &table) {
+            Ok(c) => c,
+            Err(e) => {
+                rep.violation(json!({"prop": "C11", "check": "declaration-unreadable", "root": root.rust}), json!({"error": e}));
                 continue;
             }
-            clear_places();
+        };
+        if !unknown.is_empty() {
+            rep.violation(
+                json!({"prop": "C03", "check": "free-name-is-no-known-type", "root": root.rust}),
+                json!({"names": unknown}),
+            );
+        }
+        for assign in &assigns {
+            rep.count("assignments_considered", 1);
             let mut place_of: BTreeMap<&str, Option<&'static str>> = BTreeMap::new();
             for ((k, _), v) in keys.iter().zip(assign) {
-                set_place(k, *v);
                 place_of.insert(k, *v);
             }
-            let mut table = Table { by_name: BTreeMap::new() };
-            for (k, ti) in &others {
-                table.by_name.insert((ti.ident)(), (ti.clone(), k));
-            }
-            table.by_name.insert("A".into(), (root.clone(), "A"));
-            // reachable types, by name
-            let (closure, unknown) = match closure_by_name(root, &table) {
-                Ok(c) => c,
-                Err(e) => {
-                    rep.violation(json!({"prop": "C11", "check": "declaration-unreadable", "root": root.rust}), json!({"error": e}));
-                    continue;
-                }
-            };
-            if !unknown.is_empty() {
-                rep.violation(
-                    json!({"prop": "C03", "check": "free-name-is-no-known-type", "root": root.rust}),
-                    json!({"names": unknown}),
-                );
+            // the generics with a hidden parameter are placed like `G`
+            for extra in ["GH", "GO"] {
+                let v = place_of["G"];
+                place_of.insert(extra, v);
             }
             let locs: BTreeMap<String, String> = closure
                 .iter()
@@ -176,7 +181,18 @@ pub fn run(args: &[String]) {
                     (n.clone(), loc_of(n, place_of[key]))
                 })
                 .collect();
+            if !seen_locs.insert(format!("{locs:?}")) {
+                continue;
+            }
+            case_no += 1;
+            if !slice.mine(case_no) {
+                continue;
+            }
             rep.distinct.insert(format!("{}|{:?}", root.rust, locs));
+            clear_places();
+            for (k, v) in &place_of {
+                set_place(k, *v);
+            }
             for base in &bases {
                 for pre in pre_kinds {
                     rep.evaluations += 1;
